@@ -144,8 +144,10 @@ class SubPlan:
                  "sub_async", "faults", "wseeds", "exps", "scenario")
 
 
-REFUSALS = ("two-fields", "two-aliases", "two-via-fragment", "no-resolver",
-            "query-op", "mutation-op", "blocking-runtime", "pool-runtime")
+REFUSALS = ("two-fields", "two-aliases", "two-via-fragment",
+            "two-inside-one-fragment", "two-inside-inline-fragment",
+            "no-resolver", "query-op", "mutation-op", "blocking-runtime",
+            "pool-runtime")
 
 
 def _plan(draws, spec, idx, scenario):
@@ -158,6 +160,46 @@ def _plan(draws, spec, idx, scenario):
                 budget=6 + 6 * rs.below(2, "budget"),
                 features={"sub_field": which})
     op = gen.generate("subscription")
+    from .workload import FieldSel, InlineFrag, Spread, named
+    if scenario == "ok" and rs.chance(1, 4, "root_shape"):
+        # still exactly ONE root field after collection, but written through
+        # fragments: must be accepted and behave like the plain form
+        f = op.sel[0]
+        shape = rs.below(3, "root_shape_kind")
+        literal_args = not any(
+            t.startswith(("$", "[", "{")) or t == "null" for _, t in f.args)
+        if shape == 0:
+            op.fragments["FR"] = ("Subscription", [f])
+            op.sel = [Spread("FR")]
+        elif shape == 1:
+            op.sel = [InlineFrag("Subscription" if rs.below(2, "c") else None,
+                                 [f])]
+        elif literal_args:
+            twin_sel = None
+            fdef = spec.fields[f.name]
+            if f.sel is not None:
+                twin_sel = gen.gen_selset(named(fdef.type), 1)
+            twin = FieldSel(f.name, alias=f.alias, args=f.args,
+                            argspec=f.argspec, sel=twin_sel)
+            twin.ptype = f.ptype
+            op.fragments["FR"] = ("Subscription", [twin])
+            op.sel = [f, Spread("FR")]
+        from .workload import resolve_op
+        resolve_op(op, spec)
+    if scenario in ("two-inside-one-fragment", "two-inside-inline-fragment"):
+        extra = OpGen(rs, spec, max_depth=1, budget=4,
+                      features={"sub_field": "s0"})
+        extra.nvar = 100
+        op2 = extra.generate("subscription")
+        f2 = op2.sel[0]
+        f2.alias = "other"
+        op.vars.update(op2.vars)
+        both = [op.sel[0], f2]
+        if scenario == "two-inside-one-fragment":
+            op.fragments["FX"] = ("Subscription", both)
+            op.sel = [Spread("FX")]
+        else:
+            op.sel = [InlineFrag("Subscription", both)]
     if scenario in ("two-fields", "two-aliases", "two-via-fragment"):
         extra = OpGen(rs, spec, max_depth=1, budget=4,
                       features={"sub_field":
@@ -179,8 +221,18 @@ def _plan(draws, spec, idx, scenario):
         op = OpGen(rs, spec, max_depth=1, budget=4).generate("query")
     if scenario == "mutation-op":
         op = OpGen(rs, spec, max_depth=1, budget=4).generate("mutation")
+    if op.kind == "subscription":
+        # An argument-coercion failure on the subscription root field is not
+        # covered by any clause of C17: keep the root call well-formed.
+        from .workload import resolve_op as _resolve
+        for s_ in [x for x in _roots(op) if x.argerr]:
+            for src in s_.argspec.values():
+                if src[0] == "nnlistvar":
+                    op.vars[src[1]].provided = False
+                    op.vars[src[1]].json = op.vars[src[1]].py = None
+        _resolve(op, spec)
     plan.op = op
-    plan.text = render(op, rs.below(3, "layout"))
+    plan.text = render(op, rs.below(4, "layout"))
     plan.n = rs.below(9, "n_events")
     plan.delays = [DELAYS[rs.below(len(DELAYS), "delay")]
                    for _ in range(plan.n)]
@@ -211,6 +263,28 @@ def _plan(draws, spec, idx, scenario):
                 spec, op, World(spec, plan.wseeds[k], plan.faults[k]),
                 root_value=ev))
     return plan
+
+
+def _roots(op):
+    out = []
+    for s0 in op.sel:
+        if s0.kind == "field":
+            out.append(s0)
+        elif s0.kind == "inline":
+            out.extend(x for x in s0.sel if x.kind == "field")
+        else:
+            out.extend(x for x in op.fragments[s0.frag][1]
+                       if x.kind == "field")
+    return out
+
+
+def _root_field(op):
+    s0 = op.sel[0]
+    if s0.kind == "field":
+        return s0
+    if s0.kind == "inline":
+        return s0.sel[0]
+    return op.fragments[s0.frag][1][0]
 
 
 def run_case(draws, prop, tier="quick"):
@@ -401,10 +475,10 @@ def run_case(draws, prop, tier="quick"):
             V.append(Violation(P, "event_result", ("sub-resolver-calls",),
                                "subscription resolver ran %d times"
                                % ctx.sub_calls))
-        elif ctx.sub_kwargs != plan.op.sel[0].kwargs:
+        elif ctx.sub_kwargs != _root_field(plan.op).kwargs:
             V.append(Violation(P, "event_result", ("sub-args",),
                                "%r != %r" % (ctx.sub_kwargs,
-                                             plan.op.sel[0].kwargs)))
+                                             _root_field(plan.op).kwargs)))
         if ctx.events_seen != list(range(plan.n)):
             V.append(Violation(P, "event_order", ("processing-order",),
                                "events processed %r" % (ctx.events_seen,)))
